@@ -10,6 +10,27 @@ import nv
 REPO = "/repo"
 
 
+def run_cases(cases, timeout_ms=5000, jobs=None):
+    """nv.run_cases, but splitting the harness output on LF only: str.splitlines() also splits on
+    U+0085, U+2028, U+000B ... which serde_json leaves unescaped inside string values"""
+    import subprocess
+    jobs = jobs or nv.JOBS
+    inp = "\n".join(json.dumps(c) for c in cases) + "\n"
+    p = subprocess.run([nv.NVH, "run", "-j", str(jobs), "-t", str(timeout_ms)], input=inp.encode("utf-8"),
+                       stdout=subprocess.PIPE, stderr=subprocess.PIPE)
+    if p.returncode != 0:
+        nv.tool_fail("harness run failed: " + p.stderr.decode("utf-8", "replace")[-2000:])
+    out = {}
+    for line in p.stdout.decode("utf-8").split("\n"):
+        if not line.strip():
+            continue
+        r = json.loads(line)
+        out[r["id"]] = r["steps"]
+    if len(out) != len(cases):
+        nv.tool_fail("harness returned %d results for %d cases" % (len(out), len(cases)))
+    return out
+
+
 def cps(s):
     return [ord(c) for c in s]
 
